@@ -5,13 +5,13 @@ HERE = os.path.dirname(os.path.dirname(os.path.abspath(__file__)))
 
 CLAIMED = {
  'C13': dict(
-   text="Function-level proofs (Verus on verbatim-extracted code) along the whole push-down path: analyze_range is exact (Some((k,r)) iff the condition holds exactly for the keys in r); a range is pushed only for the primary key with bounds of the key's type, any other scan condition is evaluated by a filter on the scan output; the range refers to the primary-key column wherever it stands (block index searched, position in the scanned list); start_rowid never skips a row with key >= bound for every sparse index and key multiset; at row level a row stays visible iff it was visible and its key lies in the range, for every bound kind, and the scan ends early only when the first key of a batch is beyond the upper bound. Bounded: N-sqlrange runs 79 predicates x 4 projections on 5 table shapes x layouts against a full-scan oracle. Partial: sortedness of a RowSet by its key and DataValue ordering within one type are assumptions.",
+   text="Function-level proofs (Verus on verbatim-extracted code) along the whole push-down path: analyze_range is exact (Some((k,r)) iff the condition holds exactly for the keys in r); a range is pushed only for the primary key with bounds of the key's type, any other scan condition is evaluated by a filter on the scan output; the range refers to the primary-key column wherever it stands (block index searched, position in the scanned list); start_rowid never skips a row with key >= bound for every sparse index and key multiset; at row level a row stays visible iff it was visible and its key lies in the range, for every bound kind, and the scan ends early only when the first key of a batch is beyond the upper bound. RowSetIterator::new opens all column iterators of a seeked scan at the same start row; every RowSet gets the caller's key range whatever the scan does to its own copy of the options. Bounded: N-sqlrange runs 79 predicates x 4 projections on 5 table shapes x layouts against a full-scan oracle. Partial: sortedness of a RowSet by its key and DataValue ordering within one type are assumptions.",
    note="Assumes: a RowSet is sorted by its key column (A-sortedrowset); DataValue's derived ordering is the value ordering within one type (A-dvorder); index entries record the key at their first row (U-finishblock); i32::decode is a function of the bytes; iterator-adapter searches replaced by contracted shims (A-position).",
    technique='Verus contracts + loop invariants on mechanically extracted functions / statement ranges (planner analysis, executor builder, start_rowid, RowSetIterator) + one bounded native SQL search', design='5 (C13), 4.1 U-startrow'),
  'C18': dict(
    text="Function-level proofs of the whole detection chain: checksum build/verify pair (accept iff stored == sum(type,data)); 16-byte block trailer codec and Column::decode_block_meta (Ok iff the trailer parses and the stored sum equals the sum over block[..len-12]); "
         "get_block: only intact blocks enter the cache, a corrupted uncached block errs on every read; ColumnIndex::from_bytes total and Ok iff long enough, magic, checksum over the entry bytes, count entries consume exactly those bytes; writer side (IndexBuilder, BlockIndexBuilder) agrees with the reader. "
-        "crc32 is uninterpreted; one bounded Kani harness checks the trailer byte layout. Known finding: the checksum TYPE field is not protected (H13).",
+        "crc32 is uninterpreted; one bounded Kani harness checks the trailer byte layout. Known finding: the checksum TYPE field is not protected (H13). an error of a column iterator leaves RowSetIterator::next_batch_inner as that error, never as end-of-RowSet; a BlockMeta decode that panics on an unknown tag is an obligation failure.",
    note="Assumes: crc32fast::hash deterministic (A-crc); moka cache inserts iff the loader returns Ok (A-moka); prost decode consumes one entry or errs (A-prost); async sequentialised.",
    technique="Verus contracts on extracted checksum / block-meta / get_block / index-footer functions + one bounded Kani layout harness", design='5 (C18), 4.3'),
 }
@@ -21,7 +21,7 @@ CLAIMED.update({
    text="Function-level proof of the one piece of crash logic that is a function of data: the record-replay loop of Manifest::replay, extracted verbatim. "
         "For every record stream: all readable => Ok(fold); first unreadable record is an EOF error (torn tail) => Ok with the fold of the readable prefix and truncation requested; "
         "any other decode error is reported. Lemmas over the fold: for every sequence of acknowledged transactions and every End-free partial tail the recovered operations are "
-        "exactly the acknowledged ones (atomic, durable), and recovering again gives the same state. Also: Manifest::append writes Begin, entries, End (End last) in one write and fsyncs; commit publishes a snapshot only after the append succeeded; DROP TABLE is ONE drop-complete transaction; boot repairs every crash-reachable directory state; files a crash can leave behind (manifest.tmp.json, DV files) are opened create+truncate; boot apply loop as for C03. Partial: write ordering in commit, orphan files, directory creation, rename atomicity are not under contract.",
+        "exactly the acknowledged ones (atomic, durable), and recovering again gives the same state. Also: Manifest::append writes Begin, entries, End (End last) in one write and fsyncs; commit publishes a snapshot only after the append succeeded; DROP TABLE is ONE drop-complete transaction; boot repairs every crash-reachable directory state; files a crash can leave behind (manifest.tmp.json, DV files) are opened create+truncate; boot apply loop as for C03. DropExecutor::execute hands all stored tables of one DROP statement to the storage in one operation. Partial: write ordering in commit, orphan files, directory creation, rename atomicity are not under contract.",
    note="Assumes A-serde (a byte prefix of concatenated JSON records yields the complete records then at most one EOF error; StreamDeserializer::byte_offset is the end of the last complete record), each append writes Begin..End with End last; file truncation I/O itself unverified; async sequentialised.",
    technique="Verus loop invariant on the extracted replay loop + inductive lemmas over the transaction log", design='5 (C04), 4.4 U-replay'),
  'C03': dict(
@@ -46,11 +46,11 @@ CLAIMED.update({
 
 CLAIMED.update({
  'C06': dict(
-   text="Function-level proofs, layer by layer: fixed-width value codecs round-trip for every value (Kani, in place, all 10 types; Interval sub-day part is a recorded known finding); RLE varint round-trips every u32; plain i32 block builder/iterator; nullable builder/decoder split, iterator cursor pairing and the append-not-replace validity of a batch; blob (varchar) blocks; RLE iterator/builder against expand(counts, values); dictionary builder/iterator; column scan loop returns consecutive rows at the reported row id; skip arithmetic; row-set fetch size never crosses a column's block; block index tiling and block_of_row. Bounded: N-column reads whole int/varchar columns built by the real builders under every encoding x nullability x small block sizes x start row x batch/skip pattern (~245k reads); N-charblock for fixed-width char blocks. Partial: builders' finish() write cursors and the column builders (Peekable adapters) are covered by the bounded search only.",
+   text="Function-level proofs, layer by layer: fixed-width value codecs round-trip for every value (Kani, in place, all 10 types; Interval sub-day part is a recorded known finding); RLE varint round-trips every u32; plain i32 block builder/iterator; nullable builder/decoder split, iterator cursor pairing and the append-not-replace validity of a batch; blob (varchar) blocks; RLE iterator/builder against expand(counts, values); dictionary builder/iterator; column scan loop returns consecutive rows at the reported row id; skip arithmetic; row-set fetch size never crosses a column's block; block index tiling and block_of_row. the three block-iterator factories put the right decoder tree on a block from its tag alone and tell every layer the right element count (rows / runs / dictionary entries); RowSetIterator::new opens every column iterator at the same start row. Bounded: N-column reads whole int/varchar columns built by the real builders under every encoding x nullability x small block sizes x start row x batch/skip pattern (~245k reads); N-charblock for fixed-width char blocks. Partial: builders' finish() write cursors and the column builders (Peekable adapters) are covered by the bounded search only.",
    note='Assumes: generic code verified at T=i32; BitVec modelled as Seq<bool> (A-bitvec); A-fw axioms backed by the Kani harnesses; rows per block fit usize.',
    technique='Kani loop-free harnesses in place (codecs) + Verus contracts on extracted block builders/iterators/array builders + bounded native column search', design='5 (C06), 4.1'),
  'C07': dict(
-   text='Function-level proofs: the row address used by DELETE packs/unpacks exactly for every (rowset < 2^31, row) and is injective (Kani, in-place function contracts); the hidden row-handler column emits exactly the handles of the scanned rows; the merge heap, visible-row search and pick loop used by compaction/sorted scans; delete-vector bits survive the key-range filter; DV files load every record; boot restarts DV / row-set id generators above every logged id. Bounded: N-sqlhistory checks DELETE counts and table contents after every step of sampled insert/delete/reopen histories. Partial (thin): DeleteVector::apply_to is outside both verifiers; compaction commit is I/O; compaction concurrent with DML is not covered.',
+   text='Function-level proofs: the row address used by DELETE packs/unpacks exactly for every (rowset < 2^31, row) and is injective (Kani, in-place function contracts); the hidden row-handler column emits exactly the handles of the scanned rows; the merge heap, visible-row search and pick loop used by compaction/sorted scans; delete-vector bits survive the key-range filter; DV files load every record; boot restarts DV / row-set id generators above every logged id. RowSetIterator::new starts every column iterator, the row-handler column included, at the same row and gives the row-handler column the RowSet's total row count. Bounded: N-sqlhistory checks DELETE counts and table contents after every step of sampled insert/delete/reopen histories. Partial (thin): DeleteVector::apply_to is outside both verifiers; compaction commit is I/O; compaction concurrent with DML is not covered.',
    note="Assumes rowset ids < 2^31 (precondition surfaced by the contract; ids are allocated from 0 by a counter).",
    technique='Kani function contracts in place + Verus contracts on extracted iterators + one bounded native history search', design='5 (C07), 4.1-4.2'),
 })
